@@ -730,6 +730,16 @@ class CallGraph:
                     c = a.get("c")
                     if c and c.get("fn_dp"):
                         out.append((c.get("resolved_dp") or c["fn_dp"], "fnref", t.get("sp", "")))
+                # blanket impls in core that call back into local code
+                cal0 = norm(t.get("callee") or "")
+                if cal0 in ("core::convert::Into::into", "core::convert::TryInto::try_into") and len(t.get("targs", [])) >= 2:
+                    src_ty, dst_ty = norm(t["targs"][0]), norm(t["targs"][1])
+                    want_tr = "core::convert::From" if cal0.endswith("Into::into") else "core::convert::TryFrom"
+                    for imp in self.c.impls:
+                        if imp.get("trait") == want_tr and norm(imp["self_ty"]) == dst_ty and ("<" + src_ty + ">") in norm(imp.get("trait_ref", "")):
+                            for it in imp["items"]:
+                                if it["kind"] == "AssocFn":
+                                    out.append((it["dp"], "call-via-into", t.get("sp", "")))
                 if t.get("resolved_dp") and not t.get("unresolved"):
                     tgt = t["resolved_dp"]
                     if tgt in self.bodies:
